@@ -34,6 +34,7 @@ func init() {
 			{Name: "trunc", N: tierN(1500, 60000), Run: c06Trunc},
 			{Name: "fuzz", N: tierN(1000, 40000), Run: c06Fuzz},
 			{Name: "fnargs", N: func(string) int { return len(xgen.AllFuncs) }, Run: c06FnArgs},
+			{Name: "utf8edge", N: func(string) int { return 160 }, Run: c06UTF8Edge},
 		},
 	})
 }
@@ -117,7 +118,9 @@ func c06Long(t string) []c06Spec {
 			c06Spec{Name: "(a)[1][1]...", Pre: "", Mid: "(a)", Post: "[1]", N: n},
 			c06Spec{Name: "a//a//a...", Pre: "a//", Mid: "a", N: n},
 			c06Spec{Name: "concat(1,1,...)", Pre: "1,", Mid: "1)", N: n},
-			c06Spec{Name: "-----1", Pre: "-", Mid: "1", N: n},
+			c06Spec{Name: "-----1", Pre: "-", Mid: "1", N: n * 3},
+			c06Spec{Name: "- - - - 1", Pre: "- ", Mid: "a", N: n * 2},
+			c06Spec{Name: "a/-----1 (invalid)", Pre: "-", Mid: "1", N: n},
 			c06Spec{Name: "long name", Pre: "ab", Mid: "c", N: n},
 			c06Spec{Name: "long string", Pre: "xy", Mid: "'", N: n},
 			c06Spec{Name: "long number", Pre: "12", Mid: ".5", N: n},
@@ -133,6 +136,8 @@ func c06Long(t string) []c06Spec {
 func (s c06Spec) longText() string {
 	t := s.text()
 	switch s.Name {
+	case "a/-----1 (invalid)":
+		return "a/" + t
 	case "concat(1,1,...)":
 		return "concat(" + t
 	case "long string":
@@ -219,11 +224,18 @@ func c06Trunc(c *Case) {
 	e := anyExpr(g, env)
 	src := xref.Render(e)
 	c.c06Check(src, "trunc")
+	_, errBefore := safeCompile(src)
 	for i := 1; i < len(src); i++ {
 		c.c06Check(src[:i], "trunc")
 		if c.Violated() {
 			return
 		}
+	}
+	// Compile is a function of its input: the verdict on the complete expression is the same after
+	// hundreds of (mostly failing) compilations of its truncations as before them
+	if _, errAfter := safeCompile(src); (errBefore == nil) != (errAfter == nil) {
+		c.Violation("COMPILE-VERDICT-DEPENDS-ON-EARLIER-CALLS", map[string]interface{}{"input": src, "before": fmt.Sprint(errBefore), "after": fmt.Sprint(errAfter)})
+		return
 	}
 	// prefixed name tests: bound compiles, unbound in a non-nil map is rejected
 	pref := "p:a/q:b[@r:c]"
@@ -291,4 +303,21 @@ func c06FnArgs(c *Case) {
 	}
 	rec(nil)
 	c.Sample(map[string]interface{}{"family": "fnargs", "function": fn, "argument_kinds": c06ArgKinds, "max_args": 3})
+}
+
+// c06UTF8Edge: long (60..220 byte) valid and malformed inputs whose last, multi-byte or invalid
+// characters straddle every byte offset - error paths that slice or truncate the input text.
+func c06UTF8Edge(c *Case) {
+	n := 40 + c.Index
+	for _, body := range []string{"a", "a/", "ab|", "1+", "x[", "f(", "'s", " "} {
+		pre := strings.Repeat(body, n/len(body)+1)[:n]
+		for _, tail := range []string{"é", "中", "😀", "\x80", "\x80\x80\x80", "\xc3", "\xe4\xb8", "é)", "中]", "é'", "\xff\xfe", "aé中", "é é é"} {
+			c.c06Check(pre+tail, "utf8edge")
+			c.c06Check(pre+tail+")", "utf8edge")
+			if c.Violated() {
+				return
+			}
+		}
+	}
+	c.Sample(map[string]interface{}{"family": "utf8edge", "prefix_bytes": n})
 }
